@@ -13,8 +13,8 @@ def feed(ctx, res, findings, suite):
     ctx.samples += res.get('samples', [])[:1]
     ctx.cov.setdefault('system', {})[suite] = {k: v for k, v in res.items() if k not in ('fails', 'samples')}
     fails = res['fails']
-    if ctx.prop != 'C01':   # the permission-bit finding F-C01-d belongs to C01 only; the other properties do not speak about mode bits
-        fails = [f for f in fails if f['kind'] != 'output_mode_masked_by_server_umask']
+    if ctx.prop != 'C01':   # the permission-bit finding F-C01-d and the dropped driver warning F-C01-e belong to C01 only; the other properties speak neither about mode bits nor about diagnostics
+        fails = [f for f in fails if f['kind'] not in ('output_mode_masked_by_server_umask', 'clangxx_c_input_warning_dropped')]
     monitor_failures(ctx, fails, findings, suite, to_replay)
 
 def sysroot(ctx, name):
